@@ -201,6 +201,9 @@ func (i *Instance) ApplyAppSchema(jsonPayload []byte) error {
 }
 
 func (i *Instance) Schema() schema.GraphInstance {
+	i.producerLock.Lock()
+	defer i.producerLock.Unlock()
+
 	var noteMetadata map[string]any
 	if notes := i.metadata.Get("notes"); notes != nil {
 		casted, ok := notes.(map[string]any)
@@ -265,6 +268,11 @@ func (i *Instance) Schema() schema.GraphInstance {
 }
 
 func (i *Instance) EncodeToAppSchema(appSchema *schema.App, encoder *jbtf.Encoder) {
+	// Walking the graph reads parameter values and node dependencies, which
+	// parameter updates and artifact generation write to
+	i.producerLock.Lock()
+	defer i.producerLock.Unlock()
+
 	nodeInstances := make(map[string]schema.AppNodeInstance)
 
 	// Encode in a stable order so embedded binaries always land in the same
